@@ -135,6 +135,8 @@ def cmp_model(real, rep, check_events=True):
     """None when the model of the code and the code agree on every observable"""
     if "error" in rep:
         return "driver-error:" + rep["error"]
+    if rep.get("err") == "budget":
+        return None                     # not judged (see classify)
     if real["err"] or rep["err"]:
         if not same_err(rep["err"], real["err"]):
             return "error-class model=%s real=%s" % (rep["err"], real["err"])
@@ -164,6 +166,8 @@ def cmp_spec(real, sp):
     """None when the code does what the property's reading says"""
     if "error" in sp:
         return "driver-error:" + sp["error"]
+    if sp.get("err") == "budget":
+        return None
     if sp["err"] is None and real["err"] is None:
         a = tplgen.canon_model(sp["out"])
         b = tplgen.canon_real(real["out"], real["hash2name"], drop_dynamic=True)
@@ -201,7 +205,12 @@ def replay_payload(prog, real, rep=None, sp=None, why=""):
 
 
 def classify(chk, stream, prog, real, rep, sp, regions):
-    """apply the decision protocol to one program; returns 'ok' | 'known' | 'violation' | 'disagree'"""
+    """apply the decision protocol to one program; returns 'ok' | 'known' | 'violation' | 'disagree' | 'skipped'"""
+    if (rep is not None and rep.get("err") == "budget") or (sp is not None and sp.get("err") == "budget"):
+        # more work than the driver does for one program (exponentially repeated slots): not judged
+        chk.count("skipped/over-budget", 0)
+        chk.errkind("skipped:over-budget")
+        return "skipped"
     dm = cmp_model(real, rep) if rep is not None else None
     ds = cmp_spec(real, sp) if sp is not None else None
     if dm == "output" and ds == "output" and "captured-parentloop-aliased" in regions and r_parentloop_in_fill(prog) \
@@ -254,6 +263,9 @@ def replay(prop, doc):
     (rep, sp), = batch([prog])
     real = tplgen.run_real(prog, limit=5.0)
     dm, ds = cmp_model(real, rep), cmp_spec(real, sp)
+    if rep.get("err") == "budget" or sp.get("err") == "budget":
+        print("%s: this program is over the work budget of the driver (not judged)" % prop)
+        return 0
     for line in describe(prog):
         print(line)
     pl = replay_payload(prog, real, rep, sp)
